@@ -120,7 +120,7 @@ theorem inv1_stepCas3 {s s' : State} {t : Tid} {o : Ord} {loc : Loc} {exp new ob
     · inv1_step t h heq
       refine h.lock.acquireW (by sh_old t h heq) (by rw [hw]; exact hok0.2.2.2.1) (by rw [hw]; exact hok0.2.2.2.2)
         (by simp [mtAcqWord]) (by simp [mtAcqWord]; exact hok0.2.2.2.2) (by simp) (by simp) (by sh_new t h heq) (by sh_oth)
-    · split <;> inv1_local t h heq
+    · inv1_local t h heq
   · -- mtCasWW
     rename_i c old heq
     rcases casWord_ok hs with ⟨hw, -, rfl⟩ | ⟨-, -, rfl⟩
